@@ -38,7 +38,7 @@ def run(ctx):
                 rp.update(w=gen.vsrc(w), observed="S % v accepts w, S rejects w", expected="S accepts w")
                 ctx.violation("substitution widened the schema", rp)
         if len(samples) < 4 and isinstance(c.value, (list, dict)) and c.value:
-            samples.append({"schema": c.ssrc, "value": c.vsrc(), "result": repr(c.result).replace("\n", " ")[:160]})
+            samples.append({"schema": c.ssrc, "value": c.vsrc(), "result": common.srepr(c.result).replace("\n", " ")[:160]})
     for c in ssuite.bad_results(cases)[:5]:
         rp = c.replay_dict()
         rp.update(observed="substitute returned a schema with ill-typed props: " + c.unmodelled[:300],
@@ -50,7 +50,7 @@ def run(ctx):
     for i in bad[:10]:
         c = modelled[i]
         rp = c.replay_dict()
-        rp.update(observed=c.outcome + (": " + repr(c.result).replace("\n", " ")[:300] if c.result is not None else ""),
+        rp.update(observed=c.outcome + (": " + common.srepr(c.result).replace("\n", " ")[:300] if c.result is not None else ""),
                   expected="the model's substitute result (theorem subst_narrows is about that result)",
                   theorem_or_suite="C05 correspondence: substitute")
         ctx.violation("substitute result differs from the model's", rp, failing_input=False)
